@@ -381,9 +381,16 @@ def _build_egg_info(
             metadata = pkg_resources.PathMetadata(
                 setup_dir, os.path.join(setup_dir, egg_info_dir)
             )
+            # The project's own name is in the PKG-INFO just written, `name` is only the
+            # file or directory name.
+            declared = [
+                line.partition(":")[2].strip()
+                for line in metadata.get_metadata_lines("PKG-INFO")
+                if line.startswith("Name:")
+            ]
             pkg_dist = PkgResourcesDistInfo(
                 pkg_resources.Distribution(
-                    setup_dir, project_name=name, metadata=metadata
+                    setup_dir, project_name=(declared or [name])[0], metadata=metadata
                 )
             )
             return pkg_dist
